@@ -80,6 +80,10 @@ func init() {
 		LevelText: "same simulated executions as C01 with the conservation invariant evaluated by the scheduler root after every step at which no allocator operation is in flight (free count, own chain walk, tail), free+held<=capacity at every step, and full capacity after everything is recycled.",
 		Scenarios: []scenSpec{{Name: "shmlist", Share: 1}},
 		Rule: "same runs as C01 with the conservation oracle: free count == capacity - held whenever no allocator op is in flight, chain walk from head visits exactly the free slots and ends at tail, free+held <= capacity at every step, full capacity after everything is recycled; non-trivial/distinct as for C01"})
+	reg(&propSpec{ID: "C04", Level: "exploration", QuickSec: 40, ThoroughSec: 900, DesignRef: "6.C04",
+		Scenarios: []scenSpec{{Name: "shmqueue", Share: 1}},
+		LevelText: "seeded exploration of interleavings (single memory accesses as decision points) of 1-3 producer threads and the single consumer on the real ring code over one shared mapping, capacities 1-8, head/tail starting at 0, near 2^32 and beyond 2^40; the recorded invoke/return history is checked for linearizability against a bounded FIFO with porcupine, plus direct exactly-once / intact / per-producer order / 0<=tail-head<=cap checks at every step.",
+		Rule: "seeded generation of producer counts, put counts, consumer op sequences (pop/size/isEmpty), capacity and start index x seeded schedules; non-trivial = more context switches than thread starts need and at least one successful put and pop; distinct = distinct schedule signatures among non-trivial runs; histories <= 60 operations, porcupine Unknown counted as inconclusive (never reported)"})
 }
 
 type runRecord struct {
